@@ -41,6 +41,19 @@ static void gen_common(Plan* p, Rng* r, int tier, long idx, int for_c07) {
       }
       plan_set(p, "fin_in", rng_coin(r, 1, 2) ? (int64_t)(8 << 20) : rng_range(r, 30000, 1 << 20));
       plan_set(p, "fin_out", rng_coin(r, 1, 6) ? rng_range(r, 2000, 9000) : rng_range(r, 9000, 1 << 20)); }
+    /* family "ring wrap": long-distance matching whose window still covers the start of the round input buffer when the producer wraps
+     * around it (window >= nbWorkers * jobSize, input beyond window + 3 jobs): the caller's copy of the overlap to the ring start must wait
+     * for lagging LDM steps.  One run in 16. */
+    if (!for_c07 && (idx % 16) == 7) {
+        int const w = (int)rng_range(r, 3, 4);
+        plan_set(p, "nframes", 1); plan_set(p, "f0_workers", w); plan_set(p, "f0_size", (int64_t)((w == 3 ? (3600u << 10) : (4100u << 10)) + rng_below(r, 900u << 10))); plan_set(p, "in_size", plan_get(p, "f0_size", 0));
+        plan_set(p, "c.nbWorkers", w); plan_set(p, "c.enableLongDistanceMatching", 1); plan_set(p, "c.windowLog", 21); plan_set(p, "c.jobSize", 512 << 10); plan_set(p, "c.compressionLevel", rng_range(r, 1, 3));
+        plan_set(p, "c.strategy", 0); plan_set(p, "c.overlapLog", rng_coin(r, 1, 2) ? 0 : rng_range(r, 5, 9)); plan_set(p, "c.rsyncable", 0); plan_set(p, "c.ldmHashLog", 0); plan_set(p, "c.ldmMinMatch", 0); plan_set(p, "c.ldmHashRateLog", 0); plan_set(p, "c.ldmBucketSizeLog", 0);
+        plan_set(p, "c.targetCBlockSize", 0); plan_set(p, "c.format", 0); plan_set(p, "dict_kind", 0);
+        plan_set(p, "in_kind", rng_coin(r, 1, 2) ? GEN_LONGREP : GEN_MIXED);
+        plan_set(p, "fin_in", (int64_t)(8 << 20)); plan_set(p, "fin_out", (int64_t)(1 << 20));
+        plan_set(p, "stall_site", 1); plan_set(p, "stall_nth", rng_range(r, 3, 6)); plan_set(p, "stall_len", rng_range(r, 5000, 40000));
+    } else if (!for_c07 && rng_coin(r, 1, 5)) { plan_set(p, "stall_site", rng_range(r, 1, 2)); plan_set(p, "stall_nth", rng_range(r, 1, 12)); plan_set(p, "stall_len", rng_range(r, 300, 20000)); }   /* slow-node fault: a worker is descheduled right after taking a job / right after its serial step */
     if (!for_c07 && rng_coin(r, 1, 7)) { plan_set(p, "abort_frame", (int64_t)rng_below(r, (uint64_t)nframes)); plan_set(p, "abort_after", rng_range(r, 1, 40)); plan_set(p, "abort_free", rng_coin(r, 1, 3)); }
     sim_sched_plan_defaults(p, r, faults);
     if (faults && rng_coin(r, 1, 2)) plan_set(p, "alloc_fail", rng_range(r, 1, 60));
@@ -86,6 +99,7 @@ static void exec_common(const Plan* p, int for_c07) {
     memset(&dc, 0, sizeof dc); dc.dict_mode = (int)plan_get(p, "dict_mode", 0);
     if (nframes < 1) nframes = 1; if (nframes > 4) nframes = 4;
     if (alloc_fail) sim_alloc_fail_at(alloc_fail, 0);
+    if (plan_get(p, "stall_site", 0)) sim_hook_set_stall((int)plan_get(p, "stall_site", 0), (long)plan_get(p, "stall_nth", 1), (long)plan_get(p, "stall_len", 1000));
     c = ZSTD_createCCtx_advanced(sess_cmem());
     if (for_c07) ref = ZSTD_createCCtx_advanced(sess_cmem());
     if (!c || (for_c07 && !ref)) { if (!faults_on) sim_violation("create_failed", "ZSTD_createCCtx_advanced returned NULL without an injected fault"); ZSTD_freeCCtx(c); ZSTD_freeCCtx(ref); goto leakcheck; }
